@@ -11,7 +11,7 @@ from .. import symjax as sj, refsem as rs, corpus, gfi, solve
 
 FUNCTIONS = ["chain.run_chain (single- and multi-chain path)", "State.eval_jaxpr_state (scan case)", "state", "save", "modular_vmap", "MCMCResult"]
 BOUNDS = {"n_steps": "<= 4 (5 thorough)", "grid": "every (burn_in, thin) with a non-empty result", "n_chains": "1 and 2",
-          "kernels": "mh, mala, a composite kernel that applies two kernels and saves two diagnostics", "model": "two_normals / nested"}
+          "kernels": "mh, mala, a composite kernel that applies two kernels and saves two diagnostics, a sweep kernel whose diagnostics are saved inside an inner scan", "model": "two_normals / nested"}
 ASSUMPTIONS = ["'same key' = the same outcome variables: sites are identified by (scan iteration, order)"]
 EXPLANATION = "chain traced for the grid and for the un-thinned run on shared outcome variables; slices compared leaf by leaf; un-thinned run compared with the hand-iterated kernel; chain lanes compared with the single chain"
 
@@ -32,7 +32,12 @@ def kernels():
         save(first=t.get_score())
         t = mala(t, sel("y"), 0.25)
         return t
-    return {"mh": k_mh, "mala": k_mala, "composite": k_two}
+
+    def k_sweep(t):
+        # a composite kernel whose diagnostics are saved ONLY inside an inner scan (a sweep of two mh moves)
+        import jax
+        return jax.lax.scan(lambda tr, _: (mh(tr, sel("x")), None), t, None, length=2)[0]
+    return {"mh": k_mh, "mala": k_mala, "composite": k_two, "sweep": k_sweep}
 
 
 def groups(tier, seed):
@@ -41,7 +46,7 @@ def groups(tier, seed):
     for k in ("mh", "mala", "composite"):
         gs.append(f"slice:{k}:{n if k == 'mh' else 3}")
         gs.append(f"iterate:{k}:3")
-    gs += ["chains:mh:3", "chains:mala:2"]
+    gs += ["chains:mh:3", "chains:mala:2", "slice:sweep:3", "iterate:sweep:2"]
     return gs
 
 
